@@ -55,17 +55,26 @@ fn build_text(tok: &str, pos: usize, wrap: usize) -> Vec<u8> {
 }
 
 fn check_against_reader(acc: &mut Acc, sub: &'static str, rank: u64, text: &[u8], po: &PO) {
-    check_against_reader_src(acc, sub, rank, text, po, false);
+    check_against_reader_src(acc, sub, rank, text, po, 0);
     // the stream source has its own scanners for symbols and strings: the documented reading is
     // the same there (corpus sub-check; the alphabet sweep stays on the slice source)
     if sub == "corpus-vs-reference" {
-        check_against_reader_src(acc, sub, rank, text, po, true);
+        check_against_reader_src(acc, sub, rank, text, po, 1);
+        check_against_reader_src(acc, sub, rank, text, po, 2);
     }
 }
 
-fn check_against_reader_src(acc: &mut Acc, sub: &'static str, rank: u64, text: &[u8], po: &PO, reader: bool) {
+/// `src`: 0 slice, 1 stream, 2 str (skipped when the text is not UTF-8).
+fn check_against_reader_src(acc: &mut Acc, sub: &'static str, rank: u64, text: &[u8], po: &PO, src: u8) {
     let model = read_one(text, po);
-    let actual = if reader { crate::outcome::parse_reader(text, po.to_lexpr()) } else { parse_slice(text, po.to_lexpr()) };
+    let actual = match src {
+        0 => parse_slice(text, po.to_lexpr()),
+        1 => crate::outcome::parse_reader(text, po.to_lexpr()),
+        _ => match std::str::from_utf8(text) {
+            Ok(t) => crate::outcome::parse_str(t, po.to_lexpr()),
+            Err(_) => return,
+        },
+    };
     acc.evals += 1;
     let verdict: Option<(&'static str, String)> = match (&model, &actual) {
         (_, Outcome::Panic(_)) => None, // totality is C03's business
@@ -108,7 +117,7 @@ fn check_against_reader_src(acc: &mut Acc, sub: &'static str, rank: u64, text: &
         };
         let cls = format!("{}->{}", mk, ak);
         let (h, pi) = (hex(text), po.index());
-        acc.violation(sub, kind, &format!("{}:{}", kind, cls), rank, format!("source={} input={:?} opts=[{}]", if reader { "reader" } else { "slice" }, show_bytes(text), po.describe()), detail, || json!({"input_hex": h, "po": pi}));
+        acc.violation(sub, kind, &format!("{}:{}", kind, cls), rank, format!("source={} input={:?} opts=[{}]", ["slice", "reader", "str"][src as usize], show_bytes(text), po.describe()), detail, || json!({"input_hex": h, "po": pi}));
     }
 }
 
@@ -358,6 +367,11 @@ pub fn replay(sub: &str, case: &J, acc: &mut Acc) {
     let po = PO::from_index(case["po"].as_u64().unwrap_or(0));
     match sub {
         "corpus-vs-reference" => check_against_reader(acc, "corpus-vs-reference", 0, &input, &po),
+        "token-pairs" => {
+            for src in 0..3 {
+                check_against_reader_src(acc, "token-pairs", 0, &input, &po, src);
+            }
+        }
         "constructions" => {
             // replays re-run the whole comparison for the recorded (input, option set)
             let a = parse_slice(&input, po.to_lexpr());
@@ -479,6 +493,34 @@ pub fn run(ctx: &Ctx) -> Report {
             }
             acc.outcome(&a.short().len().min(12));
             acc.sample(rank, || format!("{:?} [{}]", show_bytes(text), po.describe()));
+        });
+        rep.absorb(sub, accs);
+    }
+    if ctx.want("token-pairs") {
+        // state carried from one token to the next (scratch buffers, look-ahead, flags): every
+        // ordered pair of corpus tokens as neighbours in one list
+        let mut tokens: Vec<String> = TOKENS.iter().map(|s| s.to_string()).collect();
+        if thorough {
+            tokens.extend(crate::corpus::long_number_tokens().into_iter().filter_map(|t| String::from_utf8(t).ok()));
+        }
+        let nt = tokens.len() as u64;
+        let pos = crate::domains::po15();
+        let npo = pos.len() as u64;
+        let total = nt * nt * npo;
+        let sub = Sub::new(
+            "token-pairs",
+            "every ordered pair (t1, t2) of corpus tokens as the text \"(t1 t2)\" x the 15 corner option sets, slice, stream and str source, against the reference reader: what one token leaves behind (scratch space, look-ahead, flags) must not change the reading of the next; non-trivial = the reference reader gives a definite answer that is not 'both reject'",
+            &format!("{}^2 pairs x {} option sets x 3 sources", nt, npo),
+        );
+        let accs = par_ranks(total, |rank, acc| {
+            let po = &pos[(rank % npo) as usize];
+            let c = rank / npo;
+            let (t1, t2) = (&tokens[(c / nt) as usize], &tokens[(c % nt) as usize]);
+            let text = format!("({} {})", t1, t2).into_bytes();
+            acc.sample(rank, || format!("{:?} [{}]", show_bytes(&text), po.describe()));
+            for src in 0..3 {
+                check_against_reader_src(acc, "token-pairs", rank, &text, po, src);
+            }
         });
         rep.absorb(sub, accs);
     }
